@@ -952,6 +952,10 @@ def run(tier, seed):
     try:
         import e2e_retries
         _, forced_runs, forced_tests = e2e_retries.stage(chk, PROP, tier, seed)
+        # the settings the RUNNER uses for each test (not only settings_for): real runs whose attempt counts show the
+        # retries resolved per test, incl. two binaries with the same binary name in different packages
+        import e2e_general
+        e2e_general.stage(chk, PROP, tier, seed, n_quick=3, n_thorough=20)
     except RuntimeError as ex:
         forced_tests = 0
         chk.violation("broken-obligation", "e2e-build", dict(error=str(ex)[-3000:]), no_input=True)
